@@ -75,6 +75,21 @@ def tuples(N):
                                 continue   # construction fails; N irrelevant
                         out.append(D.Config("TwoLevel",
                                             (period, bs, st, traj), n, 2))
+    # "more units than steps" taken to the extreme: practically unlimited unit
+    # counts (the classes whose tables are sized by the unit count -- the
+    # Revolve family -- are left out: there the pinned tree needs O(units)
+    # memory as well)
+    import sys
+    for n in (1, 2, 5, 10):
+        for big in (10 ** 6, 2 ** 62, sys.maxsize):
+            for traj in ("maximum", "revolve"):
+                out.append(D.Config("Multistage", (0, big, traj), n))
+                out.append(D.Config("Multistage", (big, 0, traj), n))
+                out.append(D.Config("Multistage", (big, big, traj), n))
+                out.append(D.Config("Multistage", (2, big, traj), n))
+            for st in ("RAM", "DISK"):
+                out.append(D.Config("Mixed", (big, st), n))
+                out.append(D.Config("TwoLevel", (3, big, st, "maximum"), n, 2))
     for n in range(1, N + 1):
         for c in ("SingleMemory", "SingleDiskCopy", "SingleDiskMove",
                   "NoneSchedule"):
@@ -127,6 +142,20 @@ def evaluate(cfg, limit=60.0):
          and run.stream_exc[1] != "StopIteration")
     c17 = [f for f in run.all_failures() if "C17" in f.props]
     complete = (M is not None and not c17 and run.stream_exc is None)
+    if kind == VALID and run.construct_exc is None:
+        # the same tuple given by documented keyword names
+        try:
+            kwobj = D.build_kw(cfg)
+            with common.quiet():
+                first = repr(next(kwobj))
+            if run.actions and first != repr(run.actions[0]):
+                return ("bad", "keyword_construction_differs",
+                        f"keyword construction starts with {first}, "
+                        f"positional with {run.actions[0]!r}", nact, tr)
+        except Exception as e:  # noqa: BLE001
+            return ("bad", "keyword_construction_raises",
+                    f"valid tuple given by keyword names raised "
+                    f"{type(e).__name__}: {e}", nact, tr)
     if kind == VALID:
         if run.construct_exc is not None:
             return ("bad", "valid_rejected_at_construction",
